@@ -1093,11 +1093,13 @@ def main(ctx):
         return dict(x=np.array([0.0, 1.0, 2.5, -1.0, 10.0, 2.5]), w=np.array([1.0, 2.0, 0.5, 1.0, 0.25, 2.0]),
                     x2=np.array([[0.0, 1.0], [2.5, -1.0], [10.0, 2.5]]), w3=np.array([1.0, 2.0, 0.5]),
                     tx=np.array([1.0, 2.0, 2.5, 3.0, 7.0]), tv=np.array([2.0, 4.0, 5.0, 6.0, 14.5]),
+                    tx2=np.array([1.0, 1.5, 4.0, 6.0, 7.0]),      # same size and end points as tx, other interior
+
                     cov=np.array([[4.0, 1.0], [1.0, 9.0]]))
 
     SEQ_CALLS = [("wmom", "x", "w", None, False), ("wmom", "x", "w", 0.0, True), ("wmom", "x", "w", 1.5, True),
                  ("wmom", "x2", "w3", None, True), ("wmedian", "x", "w"), ("sigma_clip", "x", None, 1.5),
-                 ("sigma_clip", "x", "w", 1.0), ("interplin", 2.2), ("interplin", 9.0), ("get_stats", "x", None),
+                 ("sigma_clip", "x", "w", 1.0), ("interplin", 2.2, "tx"), ("interplin", 9.0, "tx"), ("interplin", 2.2, "tx2"), ("interplin", 5.0, "tx2"), ("get_stats", "x", None),
                  ("get_stats", "x", "w"), ("cov2cor",), ("boxcar", 2)]
 
     def _vals(r):
@@ -1119,7 +1121,7 @@ def main(ctx):
             return _vals(stat.sigma_clip(pool[c[1]], weights=None if c[2] is None else pool[c[2]], nsig=c[3], silent=True,
                                          get_err=True, get_indices=True))
         if c[0] == "interplin":
-            return _vals(stat.interplin(pool["tv"], pool["tx"], np.array([c[1], 1.5])))
+            return _vals(stat.interplin(pool["tv"], pool[c[2]], np.array([c[1], 1.5])))
         if c[0] == "get_stats":
             return _vals(stat.get_stats(pool[c[1]], weights=None if c[2] is None else pool[c[2]]))
         if c[0] == "cov2cor":
